@@ -40,6 +40,16 @@ CLAIMED = {
                 "F-COHERENCE witnesses replayed from known_findings.json.",
         "technique": TECH_E2,
     },
+    "C04": {
+        "category": "exploration",
+        "text": "Bounded-exhaustive validity check of every object returned by all seven algorithms under both policies on the P-, O-, U-slices "
+                "and on multifurcating inputs (Schroeder shapes <=3x<=3 leaves; thorough also 4-leaf objects with one 3-ary polytomy) for the "
+                "extended solvers, with a cost menu that includes sloss=0, all-zero and incoherent vectors; the structural predicate is evaluated "
+                "on the trees each solution refers to.",
+        "design_ref": "6 (C04)",
+        "note": "Trusted: the validity predicates in refmodel/{dtl,ordered,unordered}.py. No optimality is checked here (C01-C03, C05, C08).",
+        "technique": TECH_E2,
+    },
     "C05": {
         "category": "exploration",
         "text": "Bounded-exhaustive comparison of the ALL result with the complete optimal set of the reference models, key for key, "
